@@ -23,6 +23,10 @@ class SHeap(codec.Heap):
     def val(self, v):
         if v['k'] == 'T':
             return T
+        if v['k'] == 'T0':
+            if not hasattr(self, '_t0'):
+                self._t0 = T[0]
+            return self._t0
         if v['k'] == 'spec':
             if not hasattr(self, '_spec'):
                 self._spec = Spec(T)
@@ -32,13 +36,17 @@ class SHeap(codec.Heap):
     def project(self, o, fresh=None):
         if o is T:
             return {'k': 'T'}
+        if o is getattr(self, '_t0', None):
+            return {'k': 'T0'}
         if isinstance(o, Spec):
             return {'k': 'spec'}
         return codec.Heap.project(self, o, fresh)
 
 
 class Box:
-    """hashable attribute target for Assign"""
+    """hashable attribute target for Assign (T[0] on it is 'B')"""
+    def __getitem__(self, i):
+        return 'B'
 
 
 class Fail:
@@ -95,6 +103,8 @@ def bisim(cells, mv, obj, heap, pos, tgt, m2r, r2m):
             if w:
                 return w
         return None
+    if mv == {'k': 'str', 's': 'T'} and not isinstance(tgt, str):
+        return None if obj == 'B' else 'T[0] leaf evaluated to %r' % (obj,)
     if mv == {'k': 'str', 's': 'TGT'}:
         return None if (obj is tgt or (isinstance(tgt, str) and obj == tgt)) else 'T-like leaf evaluated to %r, not the target' % (obj,)
     want = scalar(mv, heap)
